@@ -1,0 +1,5 @@
+//go:build !verif
+
+package context
+
+func verifPoint(string) {}
